@@ -518,6 +518,34 @@ def c_transform(case, ctx):
         ctx.expect(close(got_t, want_t, rtol=0, atol=1e-9 * (1.0 + float(np.abs(want_t).max()))), "alignment.target_not_aligned_source:" + kind,
                    lambda: "%s\n%s" % (tag, describe(got_t, want_t)))
         ctx.expect(close(r.apply(src0.copy()), want_t, rtol=0, atol=1e-9 * (1.0 + float(np.abs(want_t).max()))), "alignment.apply_vs_h_matrix:" + kind, tag)
+    # the vector always describes the CURRENT transform: vectorise (done above), change the transform through a
+    # public route (in-place composition with a transform of its own family; taking the pseudoinverse), vectorise again
+    for how in ("compose_inplace", "pseudoinverse"):
+        try:
+            if how == "compose_inplace":
+                oc = o.copy()
+                other = objs.build_homog(tc)
+                if not isinstance(other, oc.composes_inplace_with):
+                    other = other.as_non_alignment() if hasattr(other, "as_non_alignment") else other
+                if not isinstance(other, oc.composes_inplace_with):
+                    continue
+                oc.as_vector()
+                oc.compose_before_inplace(other)
+            else:
+                o.as_vector()
+                oc = o.pseudoinverse()
+            hc = np.array(oc.h_matrix, dtype=float, copy=True)
+            if not np.all(np.isfinite(hc)) or np.linalg.cond(hc) > 1e6:
+                continue
+            if np.linalg.det(hc[:d, :d]) < 0 and kind in ("Rotation", "AlignmentRotation", "Similarity", "AlignmentSimilarity"):
+                continue  # a mirrored fit: the quaternion / (a, b, tx, ty) parametrisations cannot express it (not claimed)
+            vc = oc.as_vector()
+            back = oc.from_vector(vc)
+            ctx.event("revectorised after %s" % how)
+            ctx.expect(close(back.h_matrix, hc, rtol=0, atol=tol * 10 * (1.0 + float(np.abs(hc).max()))),
+                       "as_vector_after_%s_describes_old_transform:%s" % (how, kind), lambda: describe(back.h_matrix, hc))
+        except NotImplementedError:
+            continue
     # clause 4: write probe (the fitted point sets are shared by documented design)
     write_probe(o, o3, ctx, d0, skip=_ALIGN_SKIP if is_align else ())
     write_probe(o, o2, ctx, d0, skip=_ALIGN_SKIP if is_align else ())
